@@ -1153,3 +1153,12 @@ fn get_peers_in_range(peers: &[PeerId], address: &NetworkAddress, range: U256) -
         })
         .collect()
 }
+
+#[cfg(feature = "verif-hooks")]
+pub(crate) mod verif_cmd {
+    use super::*;
+    /// Pass-through to the private range filter.
+    pub fn verif_get_peers_in_range(peers: &[PeerId], address: &NetworkAddress, range: U256) -> Vec<PeerId> {
+        get_peers_in_range(peers, address, range)
+    }
+}
